@@ -142,6 +142,9 @@ def hand_over(case, S):
     mform = case["mform"]
     m = S["m"]
     M_in = None if mform == "none" else (m if mform == "vec" else np.diag(m))
+    if case.get("mint") and M_in is not None and not np.iscomplexobj(M_in):
+        M_in, lab_m = util.repack(M_in, "int")        # whole-number masses held in an integer array
+        case["_mass_label"] = lab_m
     diagB = bool(np.all(Bm == np.diag(np.diag(Bm))))
     B_in = np.diag(Bm).copy() if (diagB and case.get("bvec", True)) else Bm
     K_in = S["k"] if case.get("kvec", True) else np.diag(S["k"])
@@ -179,6 +182,13 @@ def compare(R, name, sol, ref, groups, cnd, kap, tag, kinds_suffix="", nat=None)
 
 def oracle(case, R):
     from pyyeti import ode
+    if case.get("freq_long"):
+        # a sweep longer than any plausible internal block (4096 / 8192 points), clear of undamped resonances
+        und = [md["f"] for md in case["modes"] if md["reg"] == "el" and md.get("zeta") == 0.0]
+        fl = np.linspace(0.31, 41.7, int(case["freq_long"]))
+        for u in und:
+            fl = np.where(np.abs(fl / u - 1) < 1e-3, u * 1.002, fl)
+        case = dict(case, freq=fl.tolist())
     S = build(case)
     n = S["n"]
     freq = np.array(case["freq"], float)
@@ -221,7 +231,7 @@ def oracle(case, R):
             daf[j] = max(daf[j], big / min(hs))
     nrmPhi = 1.0
     nata = np.maximum(natd * W_ ** 2, (Fabs / np.abs(S["m"])[:, None]).max(axis=0))
-    nat = {"d": natd * nrmPhi, "v": natd * W_ * nrmPhi, "a": nata * nrmPhi}
+    nat = {"d": natd * nrmPhi, "v": natd * np.abs(W_) * nrmPhi, "a": nata * nrmPhi}
     # --- SolveUnc
     dref, vref, aref, cnd = reference(S, freq, incrb, rfdo, direct_rb=False)
     ref_phys = (tr(dref), tr(vref), tr(aref))
@@ -238,6 +248,7 @@ def oracle(case, R):
     # be restored for the frequency-domain solve) and may already have solved a transient
     hstep = case.get("h")
     tsu = ode.SolveUnc(M_in, B_in, K_in, **kw) if hstep is None else ode.SolveUnc(M_in, B_in, K_in, hstep, **kw)
+    R.label("mass:int_dtype" if case.pop("_mass_label", "") == "int" else "mass:float")
     R.label("h=None" if hstep is None else "h_given")
     R.label("freq:two_sided" if np.any(freq < 0) else "freq:nonneg")
     if hstep is not None and case.get("tsolve_first"):
@@ -461,6 +472,11 @@ def freq_cases(draw, form, psd=False):
     case["fpack"] = draw(st.sampled_from(["same", "same", "int", "list", "fortran", "strided", "readonly"]))
     case["ppack"] = draw(st.sampled_from(util.PART_FORMS))
     case["fscale"] = draw(st.sampled_from([1.0, 1.0, 1.0, 1e-12, 2.0 ** -30, 1e10]))
+    case["mint"] = draw(st.booleans())
+    if case["mint"]:
+        for md in modes:
+            if md["m"] == 0.5:
+                md["m"] = 3.0                     # whole-number masses only, so that an integer array can hold them
     case["freq_list"] = draw(st.booleans())
     if not hyst and not case["cmass"] and not psd and draw(st.booleans()):
         case["h"] = draw(st.sampled_from([0.01, 0.001, 0.1]))
@@ -479,6 +495,15 @@ def freq_cases(draw, form, psd=False):
             if not (q_["a"] or q_["v"] or q_["d"] or q_["f"]):
                 q_["a"] = True      # a quadruple with no DRM at all is not a meaningful request
     return case
+
+
+@st.composite
+def long_freq_cases(draw, form):
+    c = draw(freq_cases(form))
+    c["freq_long"] = draw(st.sampled_from([4097, 5000, 8193, 12289]))
+    c["modes"] = c["modes"][:4]
+    c["freq"] = [1.0]
+    return c
 
 
 def enum_partitions(shard, nshards, tier):
@@ -516,5 +541,7 @@ PARTS = [
     Part("diag", oracle, strategy=lambda: freq_cases("diag"), quick=(8, 150), thorough=(16, 3000)),
     Part("nonprop", oracle, strategy=lambda: freq_cases("nonprop"), quick=(4, 120), thorough=(16, 1500)),
     Part("physical", oracle, strategy=lambda: freq_cases("physical"), quick=(4, 120), thorough=(16, 1500)),
+    Part("long_diag", oracle, strategy=lambda: long_freq_cases("diag"), quick=(4, 5), thorough=(8, 25)),
+    Part("long_nonprop", oracle, strategy=lambda: long_freq_cases("nonprop"), quick=(4, 8), thorough=(8, 40)),
     Part("solvepsd", oracle_psd, strategy=lambda: freq_cases("diag", psd=True), quick=(4, 80), thorough=(16, 800)),
 ]
